@@ -264,32 +264,6 @@ def wire (head : Bool) (r : Resp) : Resp :=
              hdr := if r.status = 204 || r.status = 304 then { r.hdr with cl := none } else r.hdr }
   else r
 
-/-! ### Content-Type sniffing
-
-A handler that sets no Content-Type gets one sniffed from the first bytes of its output.
-net/http (trusted, as documented) buffers up to 2048 bytes and sniffs when that buffer is first
-flushed — it is full, the handler flushes, or the handler is done — from at most the first 512
-bytes; it does not sniff once Content-Encoding is set.  The gzip writer (after the repair) holds
-its header back and collects body bytes until it has 512, the handler flushes, or the handler is
-done, and sniffs from those.  `none` = nothing to sniff from (no Content-Type is sent). -/
-
-inductive Ev where
-  | write (b : Bytes)
-  | flush
-deriving Repr, DecidableEq
-
-/-- bytes collected until `limit` is reached, a Flush, or the end -/
-def collect (limit : Nat) : Bytes → List Ev → Bytes
-  | a, [] => a
-  | a, .flush :: _ => a
-  | a, .write b :: r => if (a ++ b).length ≥ limit then a ++ b else collect limit (a ++ b) r
-
-/-- what the Content-Type is sniffed from -/
-def sniffInput (limit : Nat) (evs : List Ev) : Bytes := (collect limit [] evs).take 512
-
-def netSniffInput (evs : List Ev) : Bytes := sniffInput 2048 evs
-def gzSniffInput (evs : List Ev) : Bytes := sniffInput 512 evs
-
 /-! ### precompressed siblings (staticfiles) -/
 
 /-- `staticEncodingPriority` (tied to the source by a regenerated fact) -/
